@@ -41,6 +41,11 @@ def make_grid(cfg):
         return G.ClenshawCurtisGrid(a=a, b=b, boundary=True)
     if kind == "GaussLegendre":
         return G.GaussLegendreGrid(a=a, b=b)
+    if kind == "TrapezoidalMixedFlags":
+        # per-dimension boundary flags (Grid.set_boundaries): the n-d attribute keeps the constructor's value
+        g = G.TrapezoidalGrid(a=a, b=b, boundary=bool(cfg["flags_base"]))
+        g.set_boundaries([bool(x) for x in cfg["flags"]])
+        return g
     return G.TrapezoidalGrid(a=a, b=b, boundary=cfg["boundary"])
 
 
